@@ -27,12 +27,14 @@ def run(rep, tier, seed, known, part):
             self.items = []          # list of (tag Struct, value)
 
         def insert(self, k, v, ctx):
-            for i, (k2, _) in enumerate(self.items):
+            """returns the value previously stored under the key, or None"""
+            for i, (k2, old) in enumerate(self.items):
                 same = And(k.f[0] == k2.f[0], k.f[1] == k2.f[1])
                 if ctx.branch(same):
                     self.items[i] = (k2, v)
-                    return
+                    return old
             self.items.append((k, v))
+            return None
 
     def bv16(x):
         return BitVecVal(x, 16) if isinstance(x, int) else x
@@ -51,8 +53,10 @@ def run(rep, tier, seed, known, part):
         if re.match(r"BTreeMap::<.*>::values$", c):
             return core.SliceIter([core.Ref(core.Cell(v)) for _, v in d(args[0]).items])
         if re.match(r"BTreeMap::<.*>::insert$", c):
-            d(args[0]).insert(d(args[1]), args[2], ctx)
-            return core.Enum("None", [])
+            old = d(args[0]).insert(d(args[1]), args[2], ctx)
+            return core.Enum("None", []) if old is None else core.Enum("Some", [old])
+        if re.match(r"BTreeMap::<.*>::new$", c):
+            return BMap()
         if c.endswith("as dicom_core::header::Header>::tag") or c.endswith("as Header>::tag"):
             el = d(args[0])
             return core.Struct([el.f[0], el.f[1]])
@@ -104,7 +108,10 @@ def run(rep, tier, seed, known, part):
         rep.nontrivial += res["paths"]
         name = "command set of %d elements (symbolic tags, may coincide; value lengths <= 64 KiB): group length == bytes of the other command elements" % n
         if res["violation"]:
-            model = res["violation"][0]
+            model, vctx = res["violation"][0], res["violation"][2]
+            # prefer a counterexample with small value lengths (the native replay allocates the values)
+            s2 = Solver(); s2.add(vctx.pc + [vctx.got != vctx.total] + [ULE(l, 64) for l in ls])
+            if s2.check() == sat: model = s2.model()
             g = lambda x: model.eval(x, model_completion=True).as_long()
             words = ["cmd_len"]
             for k in range(n):
